@@ -180,54 +180,71 @@ func CheckC20(e *fw.Env, l *Lab) {
 				continue
 			}
 			s := sp[si%len(sp)]
-			ids := []string{s}
+			type combo struct {
+				ids   []string
+				prior int
+			}
+			combos := []combo{{[]string{s}, e.R.Intn(3)}}
 			if si >= len(sp) {
 				// the same spelling inside a batch, after / before a well-formed id of another domain
-				ids = [][]string{{"77777", s}, {s, "77777"}, {"77777", s, "88888"}}[e.R.Intn(3)]
-			}
-			ctx, _ := l.Base.CacheContext()
-			// prior state, a third of the time each: another identifier of the batch is paused
-			// already; the whole protocol is paused while the message is sent and resumed afterwards
-			prior := ""
-			switch e.R.Intn(3) {
-			case 0:
-				if len(ids) > 1 && PauseCrossChains(w, ctx, ProtoName[pr.proto], []string{"77777"}) == nil {
-					prior = "77777 paused before"
-				}
-			case 1:
-				if PauseProtocol(w, ctx, ProtoName[pr.proto]) == nil {
-					prior = "protocol paused during the message"
+				shapes := [][]string{{"77777", s}, {s, "77777"}, {"77777", s, "88888"}}
+				combos = []combo{{shapes[e.R.Intn(3)], e.R.Intn(3)}}
+				if s == pr.dest.Cp {
+					// the canonical spelling: every batch shape in every prior state
+					combos = nil
+					for _, sh := range shapes {
+						for p := 0; p < 3; p++ {
+							combos = append(combos, combo{sh, p})
+						}
+					}
 				}
 			}
-			err := PauseCrossChains(w, ctx, ProtoName[pr.proto], ids)
-			if prior == "protocol paused during the message" {
-				UnpauseProtocol(w, ctx, ProtoName[pr.proto])
-			}
-			e.Res.Eval()
-			nb++
-			if err != nil {
-				// (a batch that names an identifier paused already is refused for that reason)
-				if s == pr.dest.Cp && prior != "77777 paused before" {
-					e.Res.Violate(fw.Violation{Property: "C20", Kind: "canonical-identifier-refused", Detail: fmt.Sprintf("pause of (%d,%q) refused: %v", pr.proto, s, err)})
+			for _, cb := range combos {
+				ids := cb.ids
+				ctx, _ := l.Base.CacheContext()
+				// prior state: another identifier of the batch is paused already; the whole protocol
+				// is paused while the message is sent and resumed afterwards; nothing
+				prior := ""
+				switch cb.prior {
+				case 0:
+					if len(ids) > 1 && PauseCrossChains(w, ctx, ProtoName[pr.proto], []string{"77777"}) == nil {
+						prior = "77777 paused before"
+					}
+				case 1:
+					if PauseProtocol(w, ctx, ProtoName[pr.proto]) == nil {
+						prior = "protocol paused during the message"
+					}
 				}
-				e.Res.Sig("behav|%d|%s|refused", pr.proto, cpClass(s))
-				continue
+				err := PauseCrossChains(w, ctx, ProtoName[pr.proto], ids)
+				if prior == "protocol paused during the message" {
+					UnpauseProtocol(w, ctx, ProtoName[pr.proto])
+				}
+				e.Res.Eval()
+				nb++
+				if err != nil {
+					// (a batch that names an identifier paused already is refused for that reason)
+					if s == pr.dest.Cp && prior != "77777 paused before" {
+						e.Res.Violate(fw.Violation{Property: "C20", Kind: "canonical-identifier-refused", Detail: fmt.Sprintf("pause of (%d,%q) refused: %v", pr.proto, s, err)})
+					}
+					e.Res.Sig("behav|%d|%s|refused", pr.proto, cpClass(s))
+					continue
+				}
+				// accepted: the transfer to the domain must now be refused
+				t := l.NewTransfer(e.R, pr.dest.Denom, big.NewInt(1_000_000), &spec.Spec{Route: pr.dest.Make(e.R)})
+				o := run.Do(w, ctx, t, run.Mode{Kind: "H"})
+				Universal(e.Res, o)
+				wtn := map[string]any{"protocol": ProtoName[pr.proto], "paused_counterparty": s, "batch": ids, "prior_state": prior, "transfer_domain": pr.dom, "outcome": o.Res.String()}
+				if o.Success() {
+					e.Res.Violate(fw.Violation{Property: "C20", Kind: "accepted-identifier-does-not-cover-its-domain", Tags: map[string]string{"spelling": cpClass(s)},
+						Detail:  fmt.Sprintf("PauseCrossChains(%s, %q) succeeded, yet a transfer to domain %d is executed", ProtoName[pr.proto], ids, pr.dom),
+						Witness: wtn})
+				} else if s != pr.dest.Cp {
+					// a second accepted spelling of the same destination
+					e.Res.Violate(fw.Violation{Property: "C20", Kind: "two-accepted-identifiers-one-destination", Tags: map[string]string{"spelling": cpClass(s)},
+						Detail: fmt.Sprintf("%q and %q both pause domain %d", s, pr.dest.Cp, pr.dom), Witness: wtn})
+				}
+				e.Res.Sig("behav|%d|%s|batch=%d|prior=%d|accepted|%s", pr.proto, cpClass(s), len(ids), cb.prior, outcomeClass(o))
 			}
-			// accepted: the transfer to the domain must now be refused
-			t := l.NewTransfer(e.R, pr.dest.Denom, big.NewInt(1_000_000), &spec.Spec{Route: pr.dest.Make(e.R)})
-			o := run.Do(w, ctx, t, run.Mode{Kind: "H"})
-			Universal(e.Res, o)
-			wtn := map[string]any{"protocol": ProtoName[pr.proto], "paused_counterparty": s, "batch": ids, "prior_state": prior, "transfer_domain": pr.dom, "outcome": o.Res.String()}
-			if o.Success() {
-				e.Res.Violate(fw.Violation{Property: "C20", Kind: "accepted-identifier-does-not-cover-its-domain", Tags: map[string]string{"spelling": cpClass(s)},
-					Detail:  fmt.Sprintf("PauseCrossChains(%s, %q) succeeded, yet a transfer to domain %d is executed", ProtoName[pr.proto], ids, pr.dom),
-					Witness: wtn})
-			} else if s != pr.dest.Cp {
-				// a second accepted spelling of the same destination
-				e.Res.Violate(fw.Violation{Property: "C20", Kind: "two-accepted-identifiers-one-destination", Tags: map[string]string{"spelling": cpClass(s)},
-					Detail: fmt.Sprintf("%q and %q both pause domain %d", s, pr.dest.Cp, pr.dom), Witness: wtn})
-			}
-			e.Res.Sig("behav|%d|%s|batch=%d|accepted|%s", pr.proto, cpClass(s), len(ids), outcomeClass(o))
 		}
 	}
 	e.Res.CountN("behavioural-probes", nb)
